@@ -5,9 +5,9 @@ DHCPv4, HTTP, SDP, SAP, RTP and MPEG-TS code, plus:
   * compression-pointer walkers carry a jump counter compared with a constant that grows on every jump
 Undecided accesses are listed in the evidence and are not claimed.
 """
-from rules import driver, core, r_mpt
+from rules import driver, core, r_mpt, r_stride
 from rules.core import walk, key, const_val
-from props import common, memsafe
+from props import common, memsafe, fixtures
 
 TRUSTED = ["clang 14 front end + CFG builder", "tool/lcbfacts.cc", "rules/absint.py", "libc contracts of memchr/memmem/memcpy", "python3"]
 HDRS = ["proto/dns.h", "proto/radius.h", "proto/dhcpv4.h", "proto/sdp.h", "proto/sap.h", "proto/rtp.h", "proto/mpeg2ts.h"]
@@ -77,10 +77,24 @@ def run(rep, tier):
     rep.floor("tracked memory accesses", total, 150)
     nj = jump_counter_rule(rep, us["proto/dns.h"])
     rep.floor("compression pointer loops", nj, 2)
+    ns = 0
+    for lab, u in us.items():
+        own = ("include/" + lab, lab)
+        ns += r_stride.check(rep, u, [f for f in u.function_list if f.relfile() in own])
+    rep.floor("data-dependent strides (TLV walkers)", ns, 4)
     return driver.finish(
         rep, "other",
         "Relational abstract interpretation of %d protocol functions (DNS, RADIUS, DHCPv4, HTTP, SDP, SAP, RTP, MPEG-TS). Per access: "
         "inside its buffer for every packet (proved), bound present but insufficient (reported), undecided (listed, not claimed); "
-        "loop progress; short-circuit order; bounded compression-pointer walks. NOT decided: accesses listed as undecided and "
+        "loop progress; short-circuit order; bounded compression-pointer walks; attribute walkers whose stride is a length "
+        "field of the packet reject a zero length before advancing (R-STRIDE, partial evaluation through the validators they call). NOT decided: accesses listed as undecided and "
         "accesses through pointers whose capacity is a field of the packet itself (RADIUS/DHCP attribute walks are mostly of that kind)." % nfn,
         ["(pointer,size) pairs as tabled in props/memsafe.py"], TRUSTED)
+
+
+def selftest():
+    u = fixtures.load("stride.c")
+    rep = driver.Report("fixture", "quick")
+    r_stride.check(rep, u, [f for f in u.function_list if f.name.startswith("fx_tlv")])
+    fixtures.expect(rep, ["fx_tlv_bad", "fx_tlv_bad_callee"], ["fx_tlv_ok", "fx_tlv_ok_callee", "fx_tlv_ok_plus"], "R-STRIDE")
+    memsafe.selftest_cursor()
